@@ -244,8 +244,10 @@ def _run(pid, tier, seed, replay, nshards, build_arg, t0):
         "wall_s": round(time.time() - t0, 2),
         "violations": len(violations),
     }
-    os.makedirs(os.path.join(VERIF, "evidence"), exist_ok=True)
-    with open(os.path.join(VERIF, "evidence", "%s.json" % pid), "w") as fh:
+    from .harness import out_dir
+
+    os.makedirs(os.path.join(out_dir(), "evidence"), exist_ok=True)
+    with open(os.path.join(out_dir(), "evidence", "%s.json" % pid), "w") as fh:
         json.dump(evidence, fh, indent=1, sort_keys=True, default=str)
 
     for line in known_lines:
